@@ -127,13 +127,21 @@ def c20(ctx, replay):
                 "observer notification during which the observer cancels the context (or none); each is run "
                 "through the real Experiment.Execute (sequential and parallel epoch executor, population of 8) with a "
                 "scripted evaluator and a recording observer and compared with the specification's evaluator log, "
-                "observer log, recorded trials, final population states and returned error; non-trivial = script that "
-                "contains an outcome other than ok")
+                "observer log, recorded trials, final population states and returned error; where the statement leaves the moment of "
+                "the epoch turnover open the specification has two behaviours per input (turnover right after an unsolved evaluation, as "
+                "the code does, or just before the next one) and a run is accepted when either explains it; every run is made twice "
+                "on the same Experiment value; a new trial's population must be a fresh spawn (birth generation, species age, no shared organism); "
+                "non-trivial = script that contains an outcome other than ok")
     ctx.assumptions = ["population identity is observed through *Population / *Organism pointers",
                        "nothing is asserted about a finish notification for a trial aborted by an error"]
     cases_file = ctx.path("exp_cases.ndjson")
     if replay is not None:
-        write_lines(cases_file, replay_cases(replay))
+        # every admissible behaviour of the failing input (the specification may allow several, see Experiment.tla `lazy`)
+        lines = []
+        for v in replay.get("violations", []):
+            f = v.get("replay", {}).get("failure", {})
+            lines += f.get("cases") or ([f["case"]] if f.get("case") is not None else [])
+        write_lines(cases_file, lines)
     else:
         cfgs = ["MC_Experiment.cfg", "MC_Experiment_small.cfg", "MC_Experiment_wide.cfg", "MC_Experiment_nogens.cfg"]
         if thorough:
